@@ -47,7 +47,7 @@ Proof.
   destruct (no_curly_cons _ _ H) as [_ Hr]. destruct (is_comment (node_tok x)); [apply IH; exact Hr | exact H].
 Qed.
 
-Lemma has_host_skip_ws : forall pre, has_host (skip_ws pre) false = has_host pre false.
+Lemma has_host_skip_ws : forall pre, has_host (skip_ws pre) O = has_host pre O.
 Proof.
   induction pre as [|x r IH]; [reflexivity|]. cbn [skip_ws].
   destruct (is_ws_or_comment (node_tok x)) eqn:E; [|reflexivity].
@@ -55,7 +55,7 @@ Proof.
   destruct x as [t p|t p b e c]; cbn [node_tok] in *; destruct t; try discriminate; reflexivity.
 Qed.
 
-Lemma has_host_skip_comments : forall pre ac, has_host (skip_comments pre) ac = has_host pre ac.
+Lemma has_host_skip_comments : forall pre (ac : nat), has_host (skip_comments pre) ac = has_host pre ac.
 Proof.
   induction pre as [|x r IH]; intro ac; [reflexivity|]. cbn [skip_comments].
   destruct (is_comment (node_tok x)) eqn:E; [|reflexivity].
@@ -64,7 +64,7 @@ Qed.
 
 (* ---------------------------------------------------------------- the late scan = has_host *)
 
-Lemma late_scan_found : forall pre endp ac p0,
+Lemma late_scan_found : forall pre endp (ac : nat) p0,
   no_curly pre = true ->
   exists wp, host_late_scan (pre ++ B :: rest) endp ac (Some p0) = Some (rest, wp).
 Proof.
@@ -74,12 +74,12 @@ Proof.
   destruct (is_comment (node_tok x)); [apply IH; exact Hr|].
   destruct x as [t p|open p b e c].
   - destruct t; try (apply IH; exact Hr).
-    destruct (ac && str_eqb_ci s s_host); cbn [keep_first]; apply IH; exact Hr.
+    destruct (one_colon ac && str_eqb_ci s s_host); cbn [keep_first]; apply IH; exact Hr.
   - destruct open; try (apply IH; exact Hr); try discriminate.
-    destruct (ac && str_eqb_ci s s_host); cbn [keep_first]; apply IH; exact Hr.
+    destruct (one_colon ac && str_eqb_ci s s_host); cbn [keep_first]; apply IH; exact Hr.
 Qed.
 
-Lemma late_scan_spec : forall pre endp ac,
+Lemma late_scan_spec : forall pre endp (ac : nat),
   no_curly pre = true ->
   if has_host pre ac
   then exists wp, host_late_scan (pre ++ B :: rest) endp ac None = Some (rest, wp)
@@ -90,9 +90,9 @@ Proof.
   destruct (is_comment (node_tok x)); [apply IH; exact Hr|].
   destruct x as [t p|open p b e c].
   - destruct t; try (apply IH; exact Hr).
-    destruct (ac && str_eqb_ci s s_host); cbn [orb keep_first]; [apply late_scan_found; exact Hr | apply IH; exact Hr].
+    destruct (one_colon ac && str_eqb_ci s s_host); cbn [orb keep_first]; [apply late_scan_found; exact Hr | apply IH; exact Hr].
   - destruct open; try (apply IH; exact Hr); try discriminate.
-    destruct (ac && str_eqb_ci s s_host); cbn [orb keep_first]; [apply late_scan_found; exact Hr | apply IH; exact Hr].
+    destruct (one_colon ac && str_eqb_ci s s_host); cbn [orb keep_first]; [apply late_scan_found; exact Hr | apply IH; exact Hr].
 Qed.
 
 (* ---------------------------------------------------------------- the scan after a leading `:host` *)
@@ -131,9 +131,9 @@ Lemma main_spec : forall o pre0 endp st,
   end.
 Proof.
   intros o pre0 endp st Hc Hn Hp. unfold host_kind_of. rewrite Hp.
-  pose proof (late_scan_spec (skip_ws pre0) endp false (no_curly_skip_ws _ Hn)) as L.
+  pose proof (late_scan_spec (skip_ws pre0) endp O (no_curly_skip_ws _ Hn)) as L.
   rewrite has_host_skip_ws in L. unfold qr_main. rewrite Hc.
-  destruct (has_host pre0 false).
+  destruct (has_host pre0 O).
   - destruct L as [wp L]. exists wp. rewrite L. reflexivity.
   - rewrite L. reflexivity.
 Qed.
@@ -143,12 +143,12 @@ Lemma try_spec : forall o pre endp st,
   (host_pure pre = true /\
    host_try_parse o (skip_ws pre ++ B :: rest) endp st = HostDone rest (host_emit o st pb body)) \/
   (host_pure pre = false /\ host_try_parse o (skip_ws pre ++ B :: rest) endp st = HostErr) \/
-  (host_pure pre = false /\ has_host pre false = true /\
+  (host_pure pre = false /\ has_host pre O = true /\
    exists wp, host_try_parse o (skip_ws pre ++ B :: rest) endp st = HostDone rest (warn st W_HOST wp)).
 Proof.
   intros o pre endp st Hn.
   pose proof (no_curly_skip_ws _ Hn) as Hn1.
-  assert (Hh0 : has_host pre false = has_host (skip_ws pre) false) by (symmetry; apply has_host_skip_ws).
+  assert (Hh0 : has_host pre O = has_host (skip_ws pre) O) by (symmetry; apply has_host_skip_ws).
   unfold host_pure. rewrite Hh0. clear Hh0.
   destruct (skip_ws pre) as [|x r]; [right; left; split; reflexivity|].
   destruct x as [t p|open p b e c]; [|right; left; split; reflexivity].
@@ -157,8 +157,8 @@ Proof.
   cbn [app]. unfold host_try_parse. rewrite skip_comments_app.
   pose proof (no_curly_cons _ _ Hn1) as [_ Hr].
   pose proof (no_curly_skip_comments _ Hr) as Hr1.
-  assert (Hh : has_host (Leaf TColon p :: r) false = has_host (skip_comments r) true).
-  { cbn [has_host is_comment node_tok]. symmetry. apply has_host_skip_comments. }
+  assert (Hh : has_host (Leaf TColon p :: r) O = has_host (skip_comments r) 1%nat).
+  { cbn [has_host is_comment node_tok colons_next]. symmetry. apply has_host_skip_comments. }
   rewrite Hh. clear Hh.
   destruct (skip_comments r) as [|y r2]; [right; left; split; reflexivity|].
   cbn [app].
@@ -171,13 +171,13 @@ Proof.
     + assert (inv' = None) by (apply I; split; reflexivity). subst inv'. left. split; reflexivity.
     + destruct inv' as [wp|]; [|destruct (proj1 I eq_refl) as [_ A]; discriminate].
       right; right. split; [reflexivity|]. split; [|exists wp; reflexivity].
-      cbn [has_host is_comment node_tok andb orb]. rewrite Eh. reflexivity.
+      cbn [has_host is_comment node_tok one_colon andb orb]. rewrite Eh. reflexivity.
   - destruct open2; try (right; left; split; reflexivity); try discriminate.
     destruct (str_eqb_ci s s_host) eqn:Eh; [|right; left; split; reflexivity].
     destruct (host_scan_spec r2 endp (Some (cur_pos b2 e2)) Hr2) as [inv' [E I]]. rewrite E.
     destruct inv' as [wp|]; [|destruct (proj1 I eq_refl) as [A _]; discriminate].
     right; right. split; [reflexivity|]. split; [|exists wp; reflexivity].
-    cbn [has_host is_comment node_tok andb orb]. rewrite Eh. reflexivity.
+    cbn [has_host is_comment node_tok one_colon andb orb]. rewrite Eh. reflexivity.
 Qed.
 
 Theorem qrule_matches_spec : forall o pre endp st,
@@ -206,5 +206,6 @@ Example host_classes_inhabited :
                 Leaf TColon p; Leaf (TIdent s_host) p] = HostCombined /\
   host_kind_of [Leaf (TIdent [97]) p; Leaf TColon p; Block (TFunc s_host) p [] p true] = HostCombined /\
   host_kind_of [Leaf TColon p; Leaf (TWs [32]) p; Leaf (TIdent s_host) p] = HostNone /\
+  host_kind_of [Leaf TColon p; Leaf TColon p; Leaf (TIdent s_host) p] = HostNone /\
   host_kind_of [Leaf (TDelim 46) p; Leaf (TIdent s_host) p] = HostNone.
 Proof. vm_compute. repeat split; reflexivity. Qed.
